@@ -435,7 +435,7 @@ fn less_eq_value(a: &model::Value, b: &model::Value) -> (r: error::Result<bool>)
 #[verifier::external_body]
 fn less_than_value(a: &model::Value, b: &model::Value) -> (r: error::Result<bool>) { unimplemented!() }
 
-// axes (walk the live DOM graph; nothing is promised about what they return)
+// axes (what they return is proved in units/c05_axes.py; nothing about it is needed here)
 #[verifier::external_body]
 fn ancestor(node: dom::XmlNode) -> (r: Vec<dom::XmlNode>) { unimplemented!() }
 #[verifier::external_body]
@@ -453,7 +453,7 @@ fn following(node: dom::XmlNode) -> (r: Vec<dom::XmlNode>) { unimplemented!() }
 #[verifier::external_body]
 fn following_sibling(node: dom::XmlNode) -> (r: Vec<dom::XmlNode>) { unimplemented!() }
 #[verifier::external_body]
-fn namespace(node: dom::XmlNode) -> (r: Vec<dom::XmlNode>) { unimplemented!() }
+fn namespace(node: dom::XmlNode) -> (r: @NAMESPACE_RET@) { unimplemented!() }
 #[verifier::external_body]
 fn preceding(node: dom::XmlNode) -> (r: Vec<dom::XmlNode>) { unimplemented!() }
 #[verifier::external_body]
@@ -764,7 +764,14 @@ NODEC = '#[verifier::exec_allows_no_decreases_clause]'
 PUB = Rule('R12', r'^fn ', 'pub fn ', 'visibility inside the environment module (no runtime meaning)')
 
 
-def build():
+def build(repo=None):
+    import os
+    import re
+    from vf import unit as U
+    src = open(os.path.join(repo or U.REPO, FE)).read()
+    # the namespace axis answers a plain list before the repair and a Result after it: the stub follows the declaration
+    m = re.search(r'fn namespace\(node: dom::XmlNode\) -> ([^{]+?)\s*\{', src)
+    ns_ret = (m.group(1).strip() if m else 'Vec<dom::XmlNode>')
     fns = {}
     P = ['C19']
     fns['ctx_get_position'] = Fn(FM, CTX, 'get_position', props=P, sig_rules=[PUB], label='model::Context::get_position',
@@ -874,7 +881,7 @@ def build():
         loops={0: dict(invariant=[('C19:ctx', 'same_ctx(*context, *old(context))'),
                                   ('C06:one_value_per_argument_so_far', 'args@.len() == __it.index@ && __it.seq().len() == func.spec_args().len()')])})
     fns['eval_func_expr'].rules.append(Rule('R47', r'for i in func\.args\(\) \{', 'for i in __it: func.args() /*@loop*/ {', 'iterator named so that the invariant can count the arguments evaluated so far'))
-    return ENV, fns
+    return ENV.replace('@NAMESPACE_RET@', ns_ret), fns
 
 
 TEMPLATE, FNS = build()
@@ -888,4 +895,4 @@ def _auto(name):
               rules=[R_TOBOOL, R_UNIMPL, R_SORT, R_REVERSE, R_NODETYPE], ensures_if_param=[('context', C19)])
 
 
-UNIT = dict(name='eval_ctx', template=TEMPLATE, fns=FNS, props=['C19'], auto_extract=dict(file=FE, make=_auto))
+UNIT = dict(name='eval_ctx', template=TEMPLATE, fns=FNS, props=['C19'], auto_extract=dict(file=FE, make=_auto), build=build)
